@@ -140,6 +140,16 @@ def one_case(ctx, kind, inp, user_seed, nregen, check_model=True):
                 return {"kind": kind, "input": inp, "user_seed": user_seed, "nregen": nregen, "failed_at_regen": r + 1,
                         "files": bad[:6], "returned": ret, "finding_key": finding_key(kind, inp, bad, now, expected)}
             prev = now
+        # one more regeneration in a FRESH process with another hash seed (successive regenerations are separate runs in practice)
+        if user_seed % 2 == 0:
+            from .c05 import runner
+            hs = 1 + user_seed % 997
+            res, _rc = runner(kind, inp, out, None, False, hashseed=hs)
+            now = read_tree(out)
+            bad = sorted(k for k in set(expected) | set(now) if expected.get(k) != now.get(k))
+            if bad:
+                return {"kind": kind, "input": inp, "user_seed": user_seed, "nregen": nregen, "failed_at_regen": "subprocess PYTHONHASHSEED=%d" % hs,
+                        "files": bad[:6], "finding_key": finding_key(kind, inp, bad, now, expected)}
         return None if user else "trivial"
 
 
